@@ -4,7 +4,7 @@
    the next input i; `all_events init ins` / `all_cmds init ins` are the complete logs. *)
 From Coq Require Import ZArith List Bool.
 From Common Require Import Res Str.
-From Audio Require Import Model Spec Mixer Obs Monitor Utils Proofs_Utils
+From Audio Require Import Model Spec Mixer Obs Monitor Utils Proofs_Utils Pipeline Proofs_Pipeline
   Proofs_Monitor Proofs_Glue Proofs_Run Proofs_State Proofs_Stream Proofs_Tags Proofs_Buffering Proofs_Mixer.
 Import ListNotations.
 Open Scope Z_scope.
@@ -381,6 +381,48 @@ Theorem C06_supported_uri_schemes_spec : forall factories wanted s,
   In s wanted /\ exists protos, In protos factories /\ In s protos.
 Proof. exact supported_spec. Qed.
 Print Assumptions C06_supported_uri_schemes_spec.
+
+(* ------------------------------------------------------------------ closed loop (wb_ = under
+   the well-behaved-pipeline ENVIRONMENT SPECIFICATION of Pipeline.v, which is not checked
+   against GStreamer) *)
+
+Theorem C06_wb_drain_reaches_commanded : forall w p,
+  real_state (cur p) -> real_state (want p) ->
+  cur (snd (fst (drain 3 (w, p)))) = want p /\ want (snd (fst (drain 3 (w, p)))) = want p.
+Proof. exact wb_drain_reaches_commanded. Qed.
+Print Assumptions C06_wb_drain_reaches_commanded.
+
+Theorem C06_wb_settles_on_requested : forall w p s,
+  real_state (cur p) -> want p = target w -> cur p <> want p ->
+  (want p = PAUSED \/ want p = PLAYING) -> image (want p) = Some s ->
+  st (fst (fst (drain 3 (w, p)))) = s /\
+  exists old before, snd (drain 3 (w, p)) = before ++ [EvState old s None].
+Proof. exact wb_settles_on_requested. Qed.
+Print Assumptions C06_wb_settles_on_requested.
+
+Theorem C06_wb_stop_is_reported : forall w p,
+  want p = NULL -> target w = NULL -> (cur p = PAUSED \/ cur p = PLAYING) ->
+  st (fst (fst (drain 3 (w, p)))) = Stopped /\
+  snd (drain 3 (w, p)) = [EvState (st w) Stopped None; EvStream None].
+Proof. exact wb_stop_is_reported. Qed.
+Print Assumptions C06_wb_stop_is_reported.
+
+Theorem C06_wb_stop_from_ready_is_silent : forall w p,
+  want p = NULL -> cur p = READY -> drain 3 (w, p) = ((w, mkP NULL NULL), []).
+Proof. exact wb_stop_from_ready_is_silent. Qed.
+Print Assumptions C06_wb_stop_from_ready_is_silent.
+
+Theorem C06_wb_prepare_change_is_silent : forall w p,
+  real_state (cur p) -> want p = READY -> target w = READY -> snd (drain 3 (w, p)) = [].
+Proof. exact wb_prepare_change_is_silent. Qed.
+Print Assumptions C06_wb_prepare_change_is_silent.
+
+Theorem C06_wb_pipeline_follows_request : forall cs,
+  let s := cl_final cl_init cs in
+  want (snd s) = target (fst s) \/
+  (target (fst s) = PLAYING /\ want (snd s) = PAUSED /\ buffering (fst s) = true).
+Proof. exact wb_pipeline_follows_request. Qed.
+Print Assumptions C06_wb_pipeline_follows_request.
 
 (* ------------------------------------------------------------------ monitors *)
 
